@@ -951,6 +951,9 @@ class World:
                 tmp = getattr(face, coef)
                 tmp *= k
                 setattr(face, coef, tmp)
+            elif how == "mask":
+                m_ = np.asarray(arr) > float(a["t"])
+                arr[m_] = float(a["x"])
             else:
                 raise Skip("unknown how")
         except Skip:
@@ -977,6 +980,8 @@ class World:
                     sub[sl2] = self._val(a["val"], sub[sl2].shape)
                 elif how == "imul":
                     ref *= float(a["k"])
+                elif how == "mask":
+                    ref[ref > float(a["t"])] = float(a["x"])
                 self.oracle_runs["edit-effect"] += 1
                 if not exact(np.asarray(getattr(face, coef)), ref):
                     self.flag("C09", "I3", "edit-lost/bc_edit:%s" % how,
@@ -1219,6 +1224,12 @@ class World:
             sub[sl2] = self._val(a["val"], sub[sl2].shape)
         elif how == "imul":
             v.value *= float(a["k"])
+        elif how == "mask":
+            m_ = np.asarray(v.value) > float(a["t"])
+            v.value[m_] = float(a["x"])
+        elif how == "fancy":
+            idx = np.arange(0, shape[0], 2)
+            v.value[idx] = self._val(a["val"], np.asarray(v.value)[idx].shape)
         elif how == "update":
             src = self.get(a["src"], "v")
             v.update_value(src.obj)
@@ -1280,6 +1291,11 @@ class World:
                 sub[sl2] = self._val(a["val"], sub[sl2].shape)
             elif how == "imul":
                 inner *= float(a["k"])
+            elif how == "mask":
+                inner[inner > float(a["t"])] = float(a["x"])
+            elif how == "fancy":
+                idx = np.arange(0, shape[0], 2)
+                inner[idx] = self._val(a["val"], inner[idx].shape)
             elif how == "update":
                 ref[...] = A.full_array(self.get(a["src"], "v").obj)
             else:
@@ -1452,6 +1468,10 @@ class World:
             self.probes["seam:default-solver-patched"] += 1
         fake = FakeSolver(mode) if mode else None
         inner = InnerFault(a["inner"], a.get("nth", 1)) if a.get("inner") else None
+        if a.get("container") == "tuple":
+            user_terms = tuple(user_terms)
+            self.probes["solve:terms-in-a-tuple"] += 1
+        terms_before = list(user_terms)
         try:
             if inner is not None:
                 with inner:
@@ -1470,6 +1490,11 @@ class World:
             got = ("ok", ret)
         except Exception as ex:
             got = ("raise", type(ex).__name__)
+        if len(user_terms) != len(terms_before) or \
+                any(x is not y for x, y in zip(user_terms, terms_before)):
+            # the caller's term list is reused in the next step of a time loop
+            self.flag("C15", "I1", "solve/term-list/operand",
+                      {"var": vent.name, "len_before": len(terms_before), "len_after": len(user_terms)})
         if via_default and not fake.calls:
             # the library does not reach its solver through the patched module
             # attribute (any more): not demanded by any property, the call then
